@@ -47,11 +47,11 @@ func hDigit(name string) string {
 }
 
 func hDoc(p string) []byte {
-	return []byte(`{"a":` + hDigit(p+"d") + `,"b":{"c":"` + string([]byte{symPlain(p + "s")}) + `"},"l":[1,null],"big":1234567890123456789` + hDigit(p+"g") + `}`)
+	return []byte(`{ "a" : ` + hDigit(p+"d") + `,"b":{"c":"` + string([]byte{symPlain(p + "s")}) + `"}, "l":[1, null],"w":{"k":[1]},"big":1234567890123456789` + hDigit(p+"g") + ` }`)
 }
 
 func hPatch(p string) []byte {
-	return []byte(`[{"op":"add","path":"/z","value":` + hDigit(p+"v") + `},{"op":"copy","from":"/b","path":"/y"},{"op":"test","path":"/l","value":[1,null]},{"op":"add","path":"/huge","value":1e400}]`)
+	return []byte(`[{"op":"add","path":"/z","value":` + hDigit(p+"v") + `},{"op":"copy","from":"/b","path":"/y"},{"op":"test","path":"/l","value":[ 1 , null ]},{"op":"test","path":"/w","value":{ "k" : [ 1 ] }},{"op":"add","path":"/huge","value":1e400}]`)
 }
 
 func hMergePatch(p string) []byte {
@@ -81,7 +81,7 @@ func mkCall(k int, p string) hCall {
 	case hMergeBad:
 		c.a, c.b = hDoc(p), []byte(`{"b":{"c":nul`)
 	case hEqualBad:
-		c.a, c.b = hDoc(p), []byte(`{"a":1,"b":{"c":"x"},"l":[1,null],"big":1`)
+		c.a, c.b = hDoc(p), []byte(`{"a":1,"b":{"c":"x"},"l":[1,null],"w":{"k":[1]},"big":1`)
 	case hCreateBad:
 		c.a, c.b = []byte(`{"a":{"b":[1,2`), hDoc(p)
 	}
@@ -202,6 +202,7 @@ func H_SharedPatch() {
 	vx.Note("patch", pB)
 	vx.Note("d1", d1)
 	vx.Note("d2", d2)
+	d1snap, d2snap, pBsnap := clone(d1), clone(d2), clone(pB)
 	var o1, o2, o3, f1, f2, chained, chainIn, chainSnap []byte
 	var e1, e2, e3, g1, g2 error
 	rawOK := true
@@ -234,6 +235,12 @@ func H_SharedPatch() {
 		q2, _ := jsonpatch.DecodePatch(pB)
 		f2, g2 = q2.Apply(d2)
 		// chain: the output of one call is the document of the next
+		// a test whose pointer ends in an empty token compares the node that sits directly over the caller's buffer
+		selfTest := append(append([]byte(`[{"op":"test","path":"/","value":`), d1...), `}]`...)
+		if st, err := jsonpatch.DecodePatch(selfTest); err == nil {
+			st.Apply(d1)
+			st.Apply(d1)
+		}
 		rm, _ := jsonpatch.DecodePatch([]byte(`[{"op":"remove","path":"/a"}]`))
 		chainIn = o1
 		chainSnap = clone(o1)
@@ -249,6 +256,7 @@ func H_SharedPatch() {
 		return
 	}
 	vx.Assert(rawOK, "C09/patch-value-not-written")
+	vx.Assert(vx.EqBytes(d1, d1snap) && vx.EqBytes(d2, d2snap) && vx.EqBytes(pB, pBsnap), "C09/document-and-patch-text-not-written")
 	vx.Assert(vx.EqBytes(chainIn, chainSnap), "C09/document-argument-not-written")
 	vx.Assert(vx.EqBytes(o1, chainSnap), "C09/earlier-result-not-overwritten-by-later-calls")
 	vx.Assert(vx.EqBytes(o3, chainSnap), "C09/shared-patch-same-result-on-reuse")
